@@ -459,7 +459,7 @@ def build_programmatic(m, default_mode='literal', subclassed=False):
             objs[name] = G.GraphQLObjectType(name, mk_fields(t), interfaces=(lambda t=t: [objs[i] for i in t['interfaces']]), description=t['desc'])
         else:
             objs[name] = G.GraphQLUnionType(name, (lambda t=t: [objs[x] for x in t['members']]), description=t['desc'])
-    directives = list(G.specified_directives)
+    directives = [d for d in G.specified_directives if d.name not in m['directives']]      # a schema may define these names itself
     for name, d in m['directives'].items():
         kw = {}
         if d.get('deprecation') is not None:
